@@ -365,6 +365,40 @@ def quietRound : List LEv :=
 #guard (let l := runLink (runLink (linkInit { liveA with bs := 5 } { liveB with bs := 5 }) faultyHistory) settleSchedule
         (l.sentA, l.dlvB)) == (["a1", "a2", "a3"], [])
 
+/-! ### what the silence of the monitor means (used by BOTH families that evaluate it on real engines: `link`, where the
+    model also predicts every observation, and `sock`, where the schedule is real and the monitor alone decides) -/
+
+/-- before settling the monitor is silent exactly when the safety clause of `C05_safety` holds of the observed lists -/
+theorem C05_monitor_silent_iff_safe (sa sb da db : List String) :
+    monLink false sa sb da db = [] ↔ safe sa sb da db = true := by
+  unfold monLink safe
+  cases h1 : isPrefix db sa <;> cases h2 : isPrefix da sb <;> simp
+
+theorem C05_isPrefix_self (a : List String) : isPrefix a a = true := by
+  induction a with
+  | nil => rfl
+  | cons x xs ih => simp [isPrefix, ih]
+
+theorem C05_isPrefix_len_eq (a b : List String) (h : isPrefix a b = true) (hl : a.length = b.length) : a = b := by
+  obtain ⟨t, e⟩ := (isPrefix_iff a b).1 h
+  have : t = [] := by
+    have hlen := congrArg List.length e
+    simp at hlen
+    apply List.eq_nil_of_length_eq_zero
+    omega
+  simp [e, this]
+
+/-- after settling the monitor is silent exactly when both applications received exactly what the other side submitted -/
+theorem C05_monitor_settled_silent_iff (sa sb da db : List String) :
+    monLink true sa sb da db = [] ↔ (db = sa ∧ da = sb) := by
+  constructor
+  · intro h
+    unfold monLink at h
+    cases h1 : isPrefix db sa <;> cases h2 : isPrefix da sb <;> simp [h1, h2] at h
+    exact ⟨C05_isPrefix_len_eq _ _ h1 h.1, C05_isPrefix_len_eq _ _ h2 h.2⟩
+  · rintro ⟨rfl, rfl⟩
+    simp [monLink, C05_isPrefix_self]
+
 /-!
 Clause checklist (properties.jsonl C05)
 * nothing is delivered that was not sent                              : C05_safety (monitor clause `safe`), C05_safety_clauses (1st, 2nd part)
@@ -389,4 +423,7 @@ Clause checklist (properties.jsonl C05)
       family (monitor clause `C05.not_all_delivered_after_settle`) and 27 000 generated histories of the Lean model (chunk 0–3), all settle
     - side conditions: roles, DefaultApplVerID under FIXT (else no Logon is accepted: #guard), head-room for the numbers; the schedule needs the
       reconnect (or the peer / logon / logout timeouts): heartbeats alone can leave a link stuck (`stuckHistory`, same on the real engines)
+* the socket / goroutine layer (acceptor.go, initiator.go, connection.go, the run loop): NOT modelled.  The `sock` family runs two
+    real engines behind real sockets and a fault-injecting proxy and evaluates the SAME `monLink` on each round
+    (`C05_monitor_silent_iff_safe`, `C05_monitor_settled_silent_iff` say what its silence means); one round = one schedule: SAMPLED
 -/
